@@ -450,6 +450,25 @@ def prove(report: Report, targets, theorem_files=None):
     return True
 
 
+def prove_tied(report, targets, translators):
+    """Regenerate the Gen files of the given translator modules from REPO, then prove the targets.  A translator that
+    raises (fail closed) or a fact that no longer holds leaves the obligation unchecked: returns False."""
+    tr_ok = True
+    for mod in translators:
+        try:
+            facts = mod.generate(REPO, COQ)
+            bad = {fn: v for fn, v in (facts or {}).items() if v}
+            if bad:
+                report.coverage.setdefault("source_facts_changed", {}).update(bad)
+        except Exception as exc:  # noqa: BLE001
+            tr_ok = False
+            report.notes.append(f"translator {mod.__name__.rsplit('.', 1)[-1]} failed ({type(exc).__name__}: {exc})")
+    ok = prove(report, targets)
+    if not tr_ok:
+        report.coverage.setdefault("broken_obligation", {"where": "translator: " + report.notes[-1]})
+    return ok and tr_ok
+
+
 def assumptions_of(vfile: str):
     """Re-run coqc on a Props file (cheap) and return its Print Assumptions lines."""
     rc, out, err_ = coqc_file(vfile, timeout=600)
